@@ -48,7 +48,7 @@ def idxErr : PyExc := ⟨"IndexError", "render"⟩
 
 /-- the tag standing for `_format_message(field, error)` -/
 def msgTag (field : Option Key) (e : Err) : String :=
-  let sp := String.intercalate "/" (e.sp.map Key.render)
+  let sp := if e.spStr then "<str>" else String.intercalate "/" (e.sp.map Key.render)
   let f := match field with | some k => k.render | none => "None"
   s!"{e.code}@{sp}#{f}"
 
